@@ -42,27 +42,56 @@ def make_id(p, n):
                                                        p["close"], p["fatal"], p["ferr"], n)
 
 
-def tls_fd(tr):
+def tls_socks(tr):
+    """TLS sockets of the case in order of creation: list of (key, fd, role)"""
+    out = []
     for k, a in tr:
         if k == 20 and a[1] == 1:
             if a[0] == 80:
-                return a[2]
-            if a[0] == 27 and a[2] == 1:
-                return a[4]
-    return None
+                out.append((a[3], a[2], "cli"))
+            elif a[0] == 27 and a[2] == 1:
+                out.append((a[5], a[4], "srv"))
+    return out
+
+
+def tls_fd(tr):
+    s = tls_socks(tr)
+    return s[0][1] if s else None
 
 
 class World:
-    """everything derived from the trace so far"""
-    def __init__(self, c, tr):
-        self.p = plan_of(c)
-        self.fd = tls_fd(tr)
+    """everything derived from the trace so far, for ONE TLS socket of the case (index: 0 = the first one created).
+    A second TLS socket (level 'dual') always has the other kind of peer: a non-TLS peer next to a TLS peer and vice versa."""
+    def __init__(self, c, tr, index=0, sock=None):
+        p = dict(plan_of(c))
+        socks = tls_socks(tr)
+        if sock is not None:       # a socket named by key (model traces) or descriptor (implementation traces)
+            index = next((i for i, (key, fd, role) in enumerate(socks) if sock in (key, fd)), 0)
+        self.index = index
+        self.nsocks = len(socks)
+        self.fd = socks[index][1] if index < len(socks) else None
+        self.key = socks[index][0] if index < len(socks) else None
+        if index < len(socks):
+            p["role"] = socks[index][2]
+        if index >= 1:
+            p["peer"] = "plain" if p["peer"] == "tls" else "tls"
+            p["fatal"] = 0
+        self.p = p
         self.wire_out = sum(a[3] for k, a in tr if k == 3 and a[0] == self.fd and a[3] > 0)
         self.wire_in = sum(a[2] for k, a in tr if k == 4 and a[0] == self.fd and a[2] > 0)
-        self.bio_r = sum(a[2] for k, a in tr if k == 41 and a[0] == 1 and a[2] > 0)
-        self.bio_w = sum(a[2] for k, a in tr if k == 41 and a[0] == 2 and a[2] > 0)
-        self.eng = [a for k, a in tr if k == 40]
-        self.calls = sum(1 for k, a in tr if k == 42)
+        # engine and BIO entries belong to the socket named by the K_ENGCALL entry before them
+        mine = []
+        cur = None
+        self.calls = 0
+        for k, a in tr:
+            if k == 42:
+                self.calls += 1
+                cur = a[2] if len(a) > 2 else None
+            elif k in (40, 41) and (cur is None or cur in (self.key, self.fd)):
+                mine.append((k, a))
+        self.bio_r = sum(a[2] for k, a in mine if k == 41 and a[0] == 1 and a[2] > 0)
+        self.bio_w = sum(a[2] for k, a in mine if k == 41 and a[0] == 2 and a[2] > 0)
+        self.eng = [a for k, a in mine if k == 40]
         self.init = any(a[4] == 1 for a in self.eng)
         self.delivered = sum(a[2] for a in self.eng if a[0] == 1 and a[2] > 0)
         self.written_recs = [a[2] for a in self.eng if a[0] == 2 and a[2] > 0]
@@ -126,7 +155,7 @@ class World:
 
 def engine_chooser(c, a, tr, rnd):
     call, size = a[0], a[1]
-    W = World(c, tr)
+    W = World(c, tr, sock=a[2] if len(a) > 2 else None)
     p = W.p
     if W.fd is None:
         return None
@@ -200,6 +229,12 @@ def kernel(c, kind, a, tr, rnd):
         return engine_chooser(c, a, tr, rnd)
     W = World(c, tr)
     p = W.p
+    worlds = {W.fd: W}
+    for i in range(1, W.nsocks):
+        w2 = World(c, tr, index=i)
+        worlds[w2.fd] = w2
+    if kind in (3, 4) and a[0] in worlds:
+        W = worlds[a[0]]
     if kind == 1:
         return [rnd.choice([0, 0, 1000000, 3000000])]       # the clock moves: time budgets of limited operations are consumed
     if kind == 2:
@@ -208,9 +243,10 @@ def kernel(c, kind, a, tr, rnd):
         pf, pt = pipe_of(tr)
         rev = []
         for f, ev in fds:
-            if f == W.fd:
+            if f in worlds:
+                Wf = worlds[f]
                 b = 0
-                if ev & POLLIN and (W.available() > 0 or W.eof()):
+                if ev & POLLIN and (Wf.available() > 0 or Wf.eof()):
                     b |= POLLIN
                 if ev & POLLOUT and (timeout < 0 or rnd.randrange(100) >= p["nw"]):
                     b |= POLLOUT
@@ -218,8 +254,8 @@ def kernel(c, kind, a, tr, rnd):
             elif pt is not None and f == pt:
                 pending = sum(1 for k, x in tr if k == 5 and x[0] == pf and x[3] > 0) - sum(1 for k, x in tr if k == 6 and x[0] == pt and x[2] >= 0)
                 rev.append(POLLIN if pending > 0 else 0)
-            elif ev & POLLIN and W.fd is None:
-                rev.append(POLLIN)
+            elif ev & POLLIN and f not in worlds and f != pt and f != pf:
+                rev.append(POLLIN)         # the acceptor: the next peer is waiting
             else:
                 rev.append(0)
         n = sum(1 for x in rev if x)
@@ -262,7 +298,17 @@ def gen_ops(rnd, role, level):
         ops += [(80, [1])]
     else:
         ops += [(81, [9]), (27, [9, -1, 1])]
-    if level in ("basic", "buffered"):
+    if level == "dual":
+        # two accepted TLS connections served by one thread: one peer speaks TLS, the other does not
+        ops += [(27, [9, -1, 2])]
+        for _ in range(rnd.choice([3, 5, 8])):
+            key = rnd.choice([1, 2])
+            if rnd.random() < 0.4:
+                ops.append((1023, [key, rnd.choice([1, 5, 40]), rnd.choice([0, 7, 50])]))
+            else:
+                ops.append((1024, [key, rnd.choice([8, 64, 1000]), rnd.choice([0, 7, 50])]))
+        ops += [(1028, [1]), (1028, [2])]
+    elif level in ("basic", "buffered"):
         if level == "buffered":
             ops += [(30, [1, rnd.choice([1, 2, 3]), rnd.choice([8, 64, 1000])])]
         pending = None
@@ -304,7 +350,9 @@ def generate(rnd, tier):
     cases = []
     for i in range(n):
         role = rnd.choice(["cli", "srv"])
-        level = rnd.choice(["basic", "basic", "buffered", "async", "async", "async"])
+        level = rnd.choice(["basic", "basic", "buffered", "async", "async", "async", "dual"])
+        if level == "dual":
+            role = "srv"
         p = {"role": role, "level": level, "peer": "tls" if rnd.random() < 0.85 else "plain", "app": rnd.choice([0, 5, 30, 200, 3000]),
              "rec": rnd.choice([7, 100, 16384]), "seg": rnd.choice([1, 7, 64, 5000]), "nw": rnd.choice([0, 0, 30, 60]), "short": rnd.choice([0, 0, 30]),
              "close": rnd.choice([0, 0, 1]), "fatal": rnd.choice([0, 0, 0, 0, 1, 2, 3, 5]), "ferr": rnd.choice([E_SSL, E_SYSCALL, E_ZERO])}
@@ -423,50 +471,67 @@ def monitor(c, tr):
                 "(the socket's write interest was lost)" % st[0])
     # C07 on TLS sockets: the time spent waiting inside one limited Send/Receive never exceeds its time-out
     waited = 0
-    init = False
+    socks = tls_socks(tr)
+    key_of = {}
+    for key, sfd, role in socks:
+        key_of[key] = key
+        key_of[sfd] = key
+    peer_of = {}
+    for idx, (key, sfd, role) in enumerate(socks):
+        peer_of[key] = p["peer"] if idx == 0 else ("plain" if p["peer"] == "tls" else "tls")
+    init_k, fatal_k, delivered_k = {}, {}, {}
+    cur = socks[0][0] if socks else None
     fatal_seen = False
-    steps_after_ready = 0
-    delivered = 0
     rets = segments(c, tr)
     tops = top_ops(c)
     seg_i = 0
     for i, (k, a) in enumerate(tr):
-        if k == 40:
+        if k == 42:
+            cur = key_of.get(a[2], cur) if len(a) > 2 else cur
+        elif k == 40:
             if a[4] == 1:
-                init = True
+                init_k[cur] = True
             if a[3] in (E_SSL, E_SYSCALL, E_ZERO):
+                fatal_k[cur] = True
                 fatal_seen = True
         elif k == 21 and a[0] == 1:
-            if not init:
+            key = a[1]
+            if not init_k.get(key):
                 return "the receive handler got %d bytes before the handshake was complete" % a[3]
-            if p["peer"] == "plain":
+            if peer_of.get(key) == "plain":
                 return "a non-TLS peer's bytes were delivered to the receive handler"
-            delivered += a[3]
+            delivered_k[key] = delivered_k.get(key, 0) + a[3]
         elif k == 2:
             waited += a[2]
         elif k == 20 and seg_i < len(rets) and i == rets[seg_i]:
             opc = a[0]
             top = tops[seg_i][1] if seg_i < len(tops) else []
+            key = top[0] if top else None
             T = {23: top[2] if len(top) > 2 else 0, 24: top[2] if len(top) > 2 else 0, 32: top[1] if len(top) > 1 else 0}.get(opc, 0)
             if opc in (23, 24, 32) and T > 0 and waited > T * 1000000:
                 return "operation %d with time-out %d ms spent %d ns waiting in poll (its time budget was restarted between TLS records)" % (opc, T, waited)
             waited = 0
-            if opc in (24, 32) and a[1] == 1 and a[2] >= 0:
-                n = a[2] if opc == 24 else a[3]
-                if n > 0:
-                    if not init:
-                        return "Receive returned %d bytes before the handshake was complete" % n
-                    if p["peer"] == "plain":
-                        return "a non-TLS peer's bytes were delivered by Receive"
-                    delivered += n
-            if opc == 23 and a[1] == 1 and a[2] > 0 and not init:
-                return "Send reported %d bytes accepted before the handshake was complete" % a[2]
-            if opc == 23 and a[1] == 1 and a[2] > 0 and p["peer"] == "plain":
-                return "Send to a non-TLS peer reported success"
-            # an unlimited Send/Receive returning normally has completed the handshake
+            if opc in (23, 24, 32) and key in peer_of:
+                if a[1] == 0 and a[2:4] == [1, E_SSL] and not fatal_k.get(key):
+                    return ("operation %d on TLS socket %d failed with an SSL error although the engine never reported one for this connection "
+                            "(an error left behind by another connection was attributed to it)" % (opc, key))
+                if opc in (24, 32) and a[1] == 1 and a[2] >= 0:
+                    n = a[2] if opc == 24 else a[3]
+                    if n > 0:
+                        if not init_k.get(key):
+                            return "Receive returned %d bytes before the handshake was complete" % n
+                        if peer_of[key] == "plain":
+                            return "a non-TLS peer's bytes were delivered by Receive"
+                        delivered_k[key] = delivered_k.get(key, 0) + n
+                if opc == 23 and a[1] == 1 and a[2] > 0 and not init_k.get(key):
+                    return "Send reported %d bytes accepted before the handshake was complete" % a[2]
+                if opc == 23 and a[1] == 1 and a[2] > 0 and peer_of[key] == "plain":
+                    return "Send to a non-TLS peer reported success"
             seg_i += 1
-    if delivered > p["app"]:
-        return "delivered %d bytes, the peer sent %d" % (delivered, p["app"])
+    for key, n in delivered_k.items():
+        if n > p["app"]:
+            return "delivered %d bytes on socket %d, the peer sent %d" % (n, key, p["app"])
+    init = bool(socks) and init_k.get(socks[0][0], False)
     # liveness of the driver-mode handshake: with a TLS peer that answers every flight and a kernel that is writable again
     # at the next poll, a dozen Steps suffice
     end = tr[-1]
@@ -509,7 +574,13 @@ def distribution(cases):
 
 def project(tr):
     # API results with the complete exception code (the TLS layer's error codes are part of what is compared)
-    return project_async(tr) + [(c, a) for c, a in tr if c in (40, 41, 42, 2)] + [(c, a) for c, a in tr if c == 20 and a[1] == 0]
+    # (the K_ENGCALL entry names the socket: by key in the model, by descriptor in the harness — both map to its creation order)
+    order = {}
+    for i, (key, sfd, role) in enumerate(tls_socks(tr)):
+        order[key] = i
+        order[sfd] = i
+    return (project_async(tr) + [(c, a) for c, a in tr if c in (40, 41, 2)] + [(c, a[:2] + [order.get(a[2], -1)] if len(a) > 2 else a) for c, a in tr if c == 42]
+            + [(c, a) for c, a in tr if c == 20 and a[1] == 0])
 
 
 def real_openssl_stage(rep, tier, seed):
@@ -577,13 +648,13 @@ SPEC = {
     "id": "C18", "corpus": corpus, "extra": real_openssl_stage, "module": "Properties_C18", "theorems": THEOREMS, "harness": "simtls", "flavour": "tlssan",
     "generate": generate, "project": project, "nontrivial_key": nontrivial_key, "monitor": monitor,
     "distribution": distribution, "chooser": kernel, "search_rounds": 2, "finding_key": finding_key,
-    "rule": "one TLS socket per case in client or server (accepted) role, basic / buffered / asynchronous API, every timeout mode and order of first Send/Receive; the scripted engine "
+    "rule": "one TLS socket per case (two in the 'dual' scenarios: a TLS and a non-TLS peer served by one thread) in client or server (accepted) role, basic / buffered / asynchronous API, every timeout mode and order of first Send/Receive; the scripted engine "
             "plays a TLS-1.3 endpoint (flights 120/900/60/260 bytes, records with 22 bytes overhead, close_notify), the virtual peer answers each flight once ours is on the wire, "
             "may be a non-TLS peer, may close, sends 0-3000 bytes in records of 7-16384; the kernel delivers records in segments of 1..5000 bytes, is 'not writable' at 0-60% of the "
             "limited polls, writes short at 0-30% of the sends; fatal engine errors injected at the 1st-5th engine call. ASan+UBSan, asserts on. non-trivial: the engine was entered and no usage-rule violation.",
     "assumptions": ["OpenSSL is replaced by the scripted engine on BOTH sides: that real OpenSSL behaves like some engine script (records only after the handshake, WANT_READ/WANT_WRITE exactly when the BIO "
                     "callbacks set their retry flags, ciphertext output) is assumed, not checked here",
-                    "one TLS socket per case; TLS acceptors are used synchronously (Listen), the accepted socket may then be made asynchronous"],
+                    "at most two TLS sockets per case; TLS acceptors are used synchronously (Listen), the accepted socket may then be made asynchronous"],
 }
 
 
